@@ -254,6 +254,7 @@ class Scheduler:
         self.lock_blocks = 0
         self.log = [] if keep_log else None
         self.in_flight = set()
+        self.timed_out = set()
         self.hot_files = frozenset()
         self.instr = False        # additionally yield at every bytecode instruction of instr_files
         self.instr_files = frozenset()
@@ -344,6 +345,14 @@ class Scheduler:
             return
         r = self.runnable()
         if not r:
+            timed = sorted(t for t, o in self.blocked_on.items() if t in getattr(o, "timed", ()))
+            if timed:
+                t = timed[0]
+                self.timed_out.add(t)
+                del self.blocked_on[t]
+                self.status[t] = "ready"
+                r = self.runnable()
+        if not r:
             if any(st == "blocked" for st in self.status):
                 self._fail("deadlock", self._wait_graph())
             self.done.set()
@@ -393,6 +402,17 @@ class Scheduler:
         self.status[tid] = "blocked"
         self.blocked_on[tid] = lock
         r = self.runnable()
+        if not r:
+            # nothing can run: a timed wait times out (simulated time jumps), otherwise it is a deadlock
+            timed = sorted(t for t, o in self.blocked_on.items() if t in getattr(o, "timed", ()))
+            if timed:
+                t = timed[0]
+                self.timed_out.add(t)
+                del self.blocked_on[t]
+                self.status[t] = "ready"
+                r = self.runnable()
+                if t == tid:
+                    return
         if not r:
             self._fail("deadlock", self._wait_graph())
             self._park_forever(tid)
@@ -561,6 +581,49 @@ class SimRLock(SimLock):
     reentrant = True
 
 
+class SimEvent:
+    """Scheduler-aware threading.Event: a waiter blocks in the scheduler. A timed wait whose flag is never set
+    returns False once nothing else can run (the simulated clock jumps to the timeout)."""
+
+    def __init__(self, sched_ref, name="event"):
+        self._sched_ref = sched_ref
+        self.name = name
+        self.owner = None
+        self._flag = False
+        self.timed = set()
+
+    def is_set(self):
+        return self._flag
+
+    isSet = is_set
+
+    def set(self):
+        self._flag = True
+        s = self._sched_ref()
+        if s is not None:
+            s.unblock_waiters(self)
+
+    def clear(self):
+        self._flag = False
+
+    def wait(self, timeout=None):
+        s = self._sched_ref()
+        tid = s.cur_tid() if s is not None else None
+        if self._flag or tid is None:
+            return self._flag
+        s.sync_point(tid, f"<wait {self.name}>")
+        while not self._flag:
+            if timeout is not None:
+                self.timed.add(tid)
+            s.block_on(tid, self)
+            if tid in s.timed_out:
+                s.timed_out.discard(tid)
+                self.timed.discard(tid)
+                return self._flag
+        self.timed.discard(tid)
+        return True
+
+
 class LockPatcher:
     """Replaces every lock adaptix owns (module globals, attributes of module-global objects) by a
     SimLock, and makes locks that adaptix code creates from now on simulated too."""
@@ -569,6 +632,7 @@ class LockPatcher:
         self.sched = None
         self.locks = []
         self.replaced = []
+        self.events = []
         self.factories_installed = False
 
     def _ref(self):
@@ -614,6 +678,20 @@ class LockPatcher:
             return real_crlock(*a, **k)
         if real_crlock is not None:
             threading._CRLock = crlock
+        real_event = threading.Event
+        patcher = self
+
+        class EventFactory:
+            """threading.Event() called from adaptix code gives a SimEvent; isinstance checks keep working."""
+
+            def __new__(cls, *a, **k):
+                f = sys._getframe(1)
+                if is_adaptix_file(f.f_code.co_filename):
+                    ev = SimEvent(patcher._ref, f"{short_file(f.f_code.co_filename)}:{f.f_lineno}")
+                    patcher.events.append(ev)
+                    return ev
+                return real_event(*a, **k)
+        threading.Event = EventFactory
 
     def install(self):
         """Factories (if not yet) plus a scan for real locks that exist already."""
